@@ -256,6 +256,31 @@ fn rich_token_case(
             steps.push(last.seal().map_err(|e| format!("seal: {:?}", e))?);
         }
     }
+    // "references inside a block resolve to what the block's author wrote": the printed source
+    // of every block of the final token, read back by the parser, is the author's block read
+    // back by the parser (both through the builder types, which order sets canonically);
+    // texts the parser refuses (C14's known classes) are skipped
+    let mut authored_compared = 0;
+    if let Some(last) = steps.last() {
+        for (i, b) in blocks.iter().enumerate() {
+            let authored = match auth::b_block(b, &keys.ext_pub) {
+                Ok(x) => x.to_string(),
+                Err(_) => continue,
+            };
+            let printed = last.print_block_source(i).map_err(|e| format!("print_block_source({}): {:?}", i, e))?;
+            let pa = biscuit_auth::builder::BlockBuilder::new().code(&authored);
+            let pp = biscuit_auth::builder::BlockBuilder::new().code(&printed);
+            if let (Ok(pa), Ok(pp)) = (pa, pp) {
+                authored_compared += 1;
+                if pa.to_string() != pp.to_string() {
+                    return Err(format!(
+                        "block {} does not read as its author wrote it\n--- authored\n{}\n--- print_block_source\n{}",
+                        i, authored, printed
+                    ));
+                }
+            }
+        }
+    }
     let mut c11 = false;
     for (n, mem) in steps.iter().enumerate() {
         let bytes = mem.to_vec().map_err(|e| format!("step {}: to_vec: {:?}", n, e))?;
@@ -296,5 +321,10 @@ fn rich_token_case(
             return Err(format!("step {}: the facts after authorize() differ between the in-memory token and the re-read one\n{:?}\n{:?}", n, fm, fr));
         }
     }
-    Ok(format!("{} steps agree{}", steps.len(), if c11 { " (one C11-class outcome)" } else { "" }))
+    Ok(format!(
+        "{} steps agree{}{}",
+        steps.len(),
+        if c11 { " (one C11-class outcome)" } else { "" },
+        if authored_compared == blocks.len() { ", every block compared with its author's text" } else { "" }
+    ))
 }
